@@ -64,6 +64,7 @@ InitState(i) ==
    lstn    |-> [id \in CatchIds(i) |-> 0],   \* "listening" announcements so far
    intr    |-> {},        \* <<task, occ>> requests interrupted by a boundary event
    nkill   |-> 0,         \* tokens stopped by an exit answer / exhausted retries
+   cancelled |-> FALSE,   \* the instance's context was cancelled
    started |-> FALSE,
    ceased  |-> FALSE]
 
@@ -272,6 +273,13 @@ Deliver(s, k, ref) ==
                                   racy |-> Arriving(s, c) # {} \/ (Node(s.p, c).kind = "boundary" /\ s.lstn[c] = 0),
                                   after |-> {@[c][j].id : j \in {j \in DOMAIN @[c] : @[c][j].done}}])]]
 
+\* a delivery whose position relative to token arrivals is not known (the
+\* environment did not wait for the instance to settle): it may be seen either way
+DeliverRacy(s, k, ref) ==
+  LET s1 == Deliver(s, k, ref) IN
+  [s1 EXCEPT !.inbox = [c \in DOMAIN @ |->
+      [j \in DOMAIN @[c] |-> IF @[c][j].id = s1.ndel THEN [@[c][j] EXCEPT !.racy = TRUE] ELSE @[c][j]]]]
+
 \* the oldest unfinished delivery of that event has returned
 Delivered(s, k, ref) ==
   LET ids  == UNION {{s.inbox[c][j].id : j \in {j \in DOMAIN s.inbox[c] :
@@ -348,7 +356,7 @@ EventObsMoves(s) ==
 
 \* a finished delivery at a node where nothing listens or is arriving is dropped
 EventDropMust(s) ==
-  UNION {{DropMove(s, c, j) : j \in {j \in Processable(s, c) : s.inbox[c][j].done}}
+  UNION {{DropMove(s, c, j) : j \in {j \in Processable(s, c) : s.inbox[c][j].done /\ ~s.inbox[c][j].racy}}
            : c \in {c \in DOMAIN s.inbox : Listeners(s, c) = {} /\ Arriving(s, c) = {}}}
 \* an unfinished or racing delivery may be dropped at any time
 EventDropMay(s) ==
